@@ -434,6 +434,11 @@ impl Driver for C02 {
                             for (c, x) in xl.c.iter().zip(&full) {
                                 scale = qmax(&scale, &(c * x).abs());
                             }
+                            // the rows were relaxed by 1e-9 of their largest term: at a far-away point
+                            // (+-1e7 in an unbounded direction) that is an absolute slack of 1e-2
+                            for x in p.iter() {
+                                scale = qmax(&scale, &(x.abs() * pow10_neg(3)));
+                            }
                             if close(&best, &want, &scale) {
                                 out.tag("objective-agrees");
                                 compared += 1;
